@@ -18,13 +18,15 @@ from fractions import Fraction
 from sim import core, decl
 
 PROP = 'C17'
-VARIANTS = ['bare']
+VARIANTS = ['bare', 'predefined']
+VARIANT_WORKER_SHARE = {'bare': 0.75, 'predefined': 0.25}
+_CAT = None
 MAX_DECL = 22
 MAX_PROBES = 12
 
 GEN_INTENTS = {
     'base_type': 3, 'derived_type': 6, 'scaled_unit': 6, 'term_unit': 2,
-    'alias_unit': 2,
+    'alias_unit': 2, 'price_type': 1,
     'derive_unit': 3, 'plain_unit': 1, 'currency_reg': 2,
 }
 NOISE_INTENTS = ['dup_dimension', 'wrong_dim_term', 'dup_symbol',
@@ -32,7 +34,24 @@ NOISE_INTENTS = ['dup_dimension', 'wrong_dim_term', 'dup_symbol',
 
 
 def variant_of(seed, run):
-    return 'bare'
+    rng = core.rng_for(seed, PROP + ':variant', run)
+    return 'predefined' if rng.random() < 0.2 else 'bare'
+
+
+def catalogue():
+    """The predefined catalogue as pure data (read once, in a child that
+    imports quantity.predefined; this process stays a bare template)."""
+    global _CAT
+    if _CAT is None:
+        _CAT = core.run_in_child(decl.describe_catalogue, None)
+    return _CAT
+
+
+def new_model(variant):
+    model = decl.RefDir()
+    if variant == 'predefined':
+        decl.seed_from(model, catalogue())
+    return model
 
 
 def _creates(act):
@@ -69,14 +88,17 @@ def _needs(act):
 
 def gen(seed, run, tier='quick'):
     rng = core.rng_for(seed, PROP, run)
-    model = decl.RefDir()
+    variant = variant_of(seed, run)
+    model = new_model(variant)
+    n_given = len(model.uorder)
     decls, noise = [], []
     n_decl = rng.randrange(5, MAX_DECL + 1)
     kinds = list(GEN_INTENTS)
     weights = [GEN_INTENTS[k] * rng.choice([1, 1, 2]) for k in kinds]
     noise_p = rng.choice([0, 0.1, 0.25])
     tries = 0
-    for _ in range(rng.choice([2, 2, 3])):
+    for _ in range(rng.choice([2, 2, 3]) if variant == 'bare'
+                   else rng.choice([0, 1])):
         act = decl.resolve(model, ['base_type', 1] +
                            [rng.randrange(1 << 16) for _ in range(3)])
         decl.apply(model, act)
@@ -114,8 +136,39 @@ def gen(seed, run, tier='quick'):
             alias = dict(act, sym=f'u{n}')
             decl.apply(model, alias)
             decls.append(alias)
+    if rng.random() < 0.5:
+        # money: currencies, a price type and a unit for it
+        for op in (['currency_reg'], ['currency_reg'], ['price_type'],
+                   ['derive_unit'], ['derive_unit']):
+            act = decl.resolve(model, op + [rng.randrange(1 << 16)
+                                            for _ in range(12)])
+            if op[0] == 'derive_unit' and act is not None:
+                # the newest derived type without reference unit
+                price = [t for t in model.order
+                         if model.types[t]['items'] and
+                         model.types[t]['ref'] is None]
+                if not price:
+                    continue
+                act = decl.resolve(model, ['derive_unit',
+                                           [t for t in model.order
+                                            if not model.types[t]['base']]
+                                           .index(price[-1])] +
+                                   [rng.randrange(1 << 16)
+                                    for _ in range(11)])
+            if act is None or act['expect'] == 'reject':
+                continue
+            if act['a'] == 'currency_reg' and act['code'] in model.units:
+                continue
+            if act['a'] == 'derive_unit' and act['sym'] is None:
+                act['sym'] = f'v{model.counter}'
+            act['expect'] = 'accept'
+            decl.apply(model, act)
+            decls.append(act)
     # ---- probes
     syms = list(model.uorder)
+    user_syms = syms[n_given:] or syms
+    noref_syms = [s for s in syms
+                  if model.units[s]['factor'] is None] or syms
     by_dim = {}
     probes = []
 
@@ -131,7 +184,10 @@ def gen(seed, run, tier='quick'):
         tries += 1
         form = rng.choice(['uu*', 'uu*', 'uu/', 'uu/', 'u**', 'qq*', 'qq/',
                            'qu*', 'qu/', 'uq*', 'k/u', 'q**'])
-        s1, s2 = rng.choice(syms), rng.choice(syms)
+        x = rng.random()
+        s1 = rng.choice(noref_syms if x < 0.25 else user_syms
+                        if x < 0.7 else syms)
+        s2 = rng.choice(user_syms if rng.random() < 0.5 else syms)
         n = rng.choice([2, 2, 3, -1, -2, 0, 1])
         if form in ('u**', 'q**'):
             bvec, num = model.expand([(s1, n)])
@@ -149,6 +205,18 @@ def gen(seed, run, tier='quick'):
         a2 = rng.choice(['2', '5/4', '0.25', '9'])
         probes.append({'id': len(probes), 'form': form, 's1': s1, 's2': s2,
                        'n': n, 'a1': a1, 'a2': a2})
+        # siblings: the same operands under the other operator / swapped
+        # (what a memo keyed too coarsely would confuse)
+        if form[:2] in ('uu', 'qq', 'qu', 'uq'):
+            other = {'*': '/', '/': '*'}[form[2]]
+            if rng.random() < 0.4 and form[:2] != 'uq':
+                probes.append({'id': len(probes), 'form': form[:2] + other,
+                               's1': s1, 's2': s2, 'n': n, 'a1': a1,
+                               'a2': a2})
+            if rng.random() < 0.3:
+                probes.append({'id': len(probes), 'form': form if
+                               form[:2] != 'uq' else 'qu*', 's1': s2,
+                               's2': s1, 'n': n, 'a1': a1, 'a2': a2})
     # ---- histories
     k_worlds = rng.choice([3, 3, 4, 5, 6])
     created_by = {}
@@ -224,7 +292,7 @@ def gen(seed, run, tier='quick'):
             if hr.random() < 0.5:
                 steps.append(['probe', p['id'], 1])
         histories.append(steps)
-    return {'cfg': {'variant': 'bare', 'decls': decls, 'noise': noise,
+    return {'cfg': {'variant': variant, 'decls': decls, 'noise': noise,
                     'probes': probes},
             'ops': histories}
 
@@ -255,6 +323,8 @@ def run_world(arg):
     from decimalfp import Decimal
     from quantity import Quantity, Unit, UndefinedResultError
     env = decl.Env()
+    if cfg['variant'] == 'predefined':
+        decl.seed_catalogue(decl.RefDir(), env)
     decls, noise, probes = cfg['decls'], cfg['noise'], cfg['probes']
 
     def amount(s):
@@ -380,7 +450,7 @@ def judge(h):
         out = core.run_in_child(run_world, (cfg, steps))
         logs.append(out)
         n_steps += len(out)
-        model = decl.RefDir()
+        model = new_model(cfg['variant'])
         undefined_before = {}      # probe id -> step where it raised
         order_sig = []
         for si, rec in enumerate(out):
